@@ -137,11 +137,58 @@ CHECKS['C09'] = dict(
     assumptions=['array model with the documented index conventions (insertion: negative i -> n+i+1, valid 0..n; access: negative i -> n+i, valid 0..n-1)',
                  'popstr/getstr are only applied to NUL-terminated elements, popint/getint only to 8-byte elements (anything else is a caller error)'])
 
+
+CHECKS['C10'] = dict(
+    title='vector exact array under every growth policy', level='exploration',
+    jobs=lambda tier, seed: [Job('h_vector', 'plain', args=['--cases', '4000' if tier == 'thorough' else '320'])],
+    rule='evaluation = one operation compared with an array-of-fixed-size-elements model (result, returned bytes, errno ERANGE/ENOENT/EINVAL), followed by a comparison of the whole '
+         'element buffer, size(), element size, num<=max and data!=NULL iff max>0. Exhaustive sweep: every (n<=10, index in [-n-2,n+2], element size 1/3/8/17/64, policy exact/linear/double, '
+         'initial capacity 0/1/n/n+3, op addat/getat/setat/popat/removeat) cell; random histories with resize to 0 / at or below n / above n interleaved with middle insertion and removal. '
+         'distinct = sweep cells + distinct (element size, policy, length, capacity, content prefix) states.',
+    require=['sweep_cells', 'refused_calls_verified_effect_free', 'automatic_growths', 'resize_to_zero', 'resize_at_or_below_n', 'resize_above_n',
+             'walks_audited', 'flattenings_audited', 'reversals'],
+    assumptions=['array model with the documented index convention (negative i -> n+i for insertion and access)'])
+
+
+def c11_jobs(tier, seed):
+    t = tier == 'thorough'
+    return [
+        Job('h_tree', 'asan', args=['--universe', '11' if t else '8', '--cases', '2000' if t else '160']),
+        Job('h_hashtbl', 'asan', extra_srcs=REFS_HASH, args=['--cases', '2500' if t else '192']),
+        Job('h_hasharr', 'asan', extra_srcs=REFS_HASH, args=['--maxcap', '4' if t else '3', '--cases', '1750' if t else '112', '--statecap', '300000' if t else '20000']),
+        Job('h_listtbl', 'asan', extra_srcs=REFS_HASH, args=['--cases', '6400' if t else '320']),
+        Job('h_list', 'asan', args=['--cases', '2500' if t else '192']),
+        Job('h_vector', 'asan', args=['--cases', '2000' if t else '128']),
+    ]
+
+
+def c11_evidence(res, spec, tier):
+    d = default_evidence(res, spec, tier)
+    d['distinct_nontrivial'] = sum(len(v) for k, v in res.dist.items() if k == 'distinct')
+    return d
+
+
+from vf import default_evidence
+CHECKS['C11'] = dict(
+    title='containers memory-safe and leak-free', level='exploration',
+    jobs=c11_jobs,
+    evidence=c11_evidence,
+    rule='the workloads of C01-C10 (same generators: bounded-exhaustive tree shapes and hash-array images, index sweeps, random histories) executed on a gcc ASan+UBSan+LSan build in recover mode; '
+         'all caller keys/values live in exactly-sized heap blocks (keys also at odd offsets inside a block), are scribbled and freed right after each call; the allocation ledger must be empty when a container is released; '
+         'the static hash table region lies between 64 KiB ASan-poisoned guard zones. evaluation = one container operation executed under the sanitizers; '
+         'a functional mismatch abandons the history (decided by C01-C10). distinct = distinct container states reached (per-harness definition, summed).',
+    require=['containers_released', 'containers_released_leak_free', 'histories_completed', 'exhaustive_shapes', 'exhaustive_images', 'sweep_cells'],
+    assumptions=['gcc 12 libasan/libubsan/liblsan; UBSan nonnull-attribute check off (memcpy(p, NULL, 0))',
+                 'ASan red zones miss non-adjacent and intra-object overflows; the static table is additionally guarded by poisoned 64 KiB zones, intra-object effects by the functional oracles',
+                 'ledger attributes blocks by allocation sequence number between constructor and free()'])
+
 # --------------------------------------------------------------------------- manifest texts
 NOT_APPLICABLE = {}
 DESIGN_REF = {}
 LEVEL_NOTE = {}
 TECHNIQUE = {
+    'C11': 'ASan+UBSan+LSan (recover mode) + allocation ledger + poisoned guard zones over the C01-C10 workloads with exact-size caller buffers',
+    'C10': 'reference-model oracle (array of fixed-size elements) on an exhaustive (n, index, element size, policy, capacity, op) sweep + random histories',
     'C09': 'reference-model oracle (sequence of byte strings) on an exhaustive (n, index, op, limit) sweep + random histories',
     'C08': 'reference-model oracle (ordered multimap x 16 option combinations) + link-invariant walker after every operation',
     'C06': 'reference-model oracle (bounded map with slot accounting) on bounded-exhaustive images + random histories',
@@ -153,6 +200,8 @@ TECHNIQUE = {
     'C04': 'reference-model floor oracle + continuation multiset audit; CPU watchdog',
 }
 LEVEL_TEXT = {
+    'C11': 'All container harnesses are re-executed on an address/undefined-behaviour/leak-checking build with exactly-sized caller buffers; every sanitizer report block is parsed and keyed by (class, library function), and a ledger proves every allocation is released with the container.',
+    'C10': 'Every call on the real vector is compared with an array model for 5 element sizes x 3 growth policies x 4 initial capacities, every index in [-n-2,n+2] for n<=10, and random histories with resizes including to zero; the raw element buffer is compared after every operation.',
     'C09': 'Every call on the real list/queue/stack/grow buffer is compared with a sequence model, refused calls are verified effect-free by full state comparison, and every (length, index, operation, limit) cell up to length 12 is executed.',
     'C08': 'Every result of the real list table is compared with an ordered-multimap model under all 16 option combinations, the raw chain order is compared after every operation, and save/load round trips are executed on real files.',
     'C06': 'Every result, errno and counter of the real static hash table is compared with a bounded-map model including the exact fit rule, on every operation applied to every reachable image for small capacities and on random histories driven to and past full.',
